@@ -3,7 +3,7 @@
 use crate::common::*;
 use cteepbd::*;
 
-const MIXES: [&str; 16] = ["elpv", "hp", "hppv", "st", "red1", "bio", "bionrb", "biored1", "bioout", "nodem", "zerodem", "biogas", "bioout2", "elpvaux", "hppvaux", "bio2sys"];
+const MIXES: [&str; 17] = ["elpv", "hp", "hppv", "st", "red1", "bio", "bionrb", "biored1", "bioout", "nodem", "zerodem", "biogas", "bioout2", "elpvaux", "hppvaux", "bio2sys", "bio2sysd"];
 
 pub fn units(tier: &str, _seed: u64) -> Vec<String> {
     let mut v = vec![];
@@ -157,9 +157,10 @@ fn build(mix: &str, n: usize, extra: &str) -> (String, Option<F>) {
             None
         }
         // two biomass boilers next to gas, only one of them with its output declared: still not computable
-        "bio2sys" => {
+        "bio2sys" | "bio2sysd" => {
+            let cr = if mix == "bio2sys" { "BIOMASA" } else { "BIOMASADENSIFICADA" };
             s.push_str(&format!(
-                "2, CONSUMO, ACS, BIOMASA, {}\n2, SALIDA, ACS, {}\n7, CONSUMO, ACS, BIOMASADENSIFICADA, {}\n-1, CONSUMO, ACS, GASNATURAL, {}\nDEMANDA, ACS, {}\n",
+                "2, CONSUMO, ACS, {cr}, {}\n2, SALIDA, ACS, {}\n7, CONSUMO, ACS, {cr}, {}\n-1, CONSUMO, ACS, GASNATURAL, {}\nDEMANDA, ACS, {}\n",
                 row("bm"),
                 rowf(&|t| k(0.8) * e("bm", t)),
                 row("b2"),
@@ -213,7 +214,13 @@ pub fn scenario(u: &Unit) -> String {
     };
     let (fr, ep) = match run(&text, kexp) {
         Ok(x) => x,
-        Err(e) => return err_kind(&e).to_string(),
+        Err(e) => {
+            // a supply mix with a closed form must at least be accepted and evaluated
+            if closed.is_some() {
+                ob("computable-mix-is-evaluated", f());
+            }
+            return err_kind(&e).to_string();
+        }
     };
     let misc = ep.misc.as_ref();
     let has_val = misc.map(|m| m.contains_key("fraccion_renovable_demanda_acs_nrb")).unwrap_or(false);
